@@ -13,6 +13,8 @@ repositories on a memory server; the same list goes to the Coq model
   todo      rebase_todo on replace maps whose new revisions partly exist already
   marshall  marshall_rebase_plan, then unmarshall_rebase_plan of the text
   unmarshall  unmarshall_rebase_plan on damaged plan files
+  transpose   generate_transpose_plan (ancestry pairs of the real graph in a generator-chosen
+              order, renames onto existing revisions, deterministic generate_revid)
 
 topo_sort (compiled, vcsgraph) returns an order that depends on the dict order of
 the parent map, which in turn depends on set/hash order: the generator picks the
@@ -37,7 +39,7 @@ PROP = "C51"
 COQ = {
     "property_file": "Properties/C51.v",
     # Lib.Bytes leaves N_scope open; graphs are written as plain nat literals
-    "imports": "From BV Require Import Lib.Dag Model.Rebase Model.RebaseCodec. Close Scope N_scope.",
+    "imports": "From BV Require Import Lib.Dag Model.Rebase Model.RebaseCodec Model.RebaseTranspose. Close Scope N_scope.",
 }
 META = {
     "level": "proof",
@@ -51,12 +53,13 @@ META = {
                    "parent is onto, the new id of an earlier entry that rewrites an old parent, or an old parent outside the "
                    "replayed slice; rebase_todo and every topological order of the old graph put dependencies first; the plan file "
                    "round-trips for all ids without blank/newline.  With skip_full_merged the parent clause is REFUTED (candidate "
-                   "finding) and proved in the weaker form that holds.  generate_transpose_plan is not modelled."),
+                   "finding) and proved in the weaker form that holds.  generate_transpose_plan is modelled and tied by correspondence, "
+                   "but only one small fact is proved about it."),
     "level_note": ("Trusted: Coq kernel, vm_compute, the hand models' correspondence (bounded sampling), vcsgraph (heads, find_lca, "
                    "find_difference, topo_sort) as modelled by Lib/Dag / Lib/DagTopo hypotheses (compared / checked on every run). "
                    "Only bzr 2a repositories; the replay itself (rebase(), revision rewriters) is outside the property."),
     "design_ref": "DESIGN.md §5 C51",
-    "trusted_base": ["hand model coq/Model/Rebase.v, coq/Model/RebaseCodec.v of breezy/plugins/rewrite/rebase.py",
+    "trusted_base": ["hand model coq/Model/Rebase.v, coq/Model/RebaseCodec.v, coq/Model/RebaseTranspose.v of breezy/plugins/rewrite/rebase.py",
                      "coq/Lib/Dag.v, coq/Lib/DagTopo.v as a model of vcsgraph (heads, find_difference, find_lca, topo_sort)",
                      "correspondence harness harness/props/c51.py, harness/daglib.py"],
     "assumptions": ["topo_sort / iter_topo_order return a duplicate-free list of the present keys in which no revision precedes one of "
@@ -185,6 +188,8 @@ FIXED = [
     [[], [0], [1], [0], [2, 3], [3, 47], [48], [6, 4]],
     [[], [], [0, 1], [1], [2], [3, 0], [5, 4]],
     [[], [0], [0], [0], [1, 2, 3], [4], [3], [6, 5]],
+    # octopus merge whose additional parents are not all heads (1 is in 2's ancestry)
+    [[], [0], [1], [0], [0], [3, 2, 1], [5]],
 ]
 
 # C51-skipped-merge-child: F = child of a merge E that skip_full_merged drops
@@ -254,6 +259,32 @@ def _damage(rng, text):
     return text + rng.choice([b"\n", b"\n\n", b"tail", b"a b c"])
 
 
+def _transpose_case(rng, g):
+    n = len(g)
+    heads = rng.sample(range(n), rng.choice([1, 1, 2]))
+    anc = sorted(daglib.ancestors(g, heads))
+    rng.shuffle(anc)
+    pres = [x for x in anc if x < n]
+    inner = [x for x in pres if any(x in g[c] for c in pres)]      # revisions with a child in the ancestry
+    pool = inner if inner and rng.random() < 0.8 else pres
+    olds = rng.sample(pool, min(len(pool), rng.choice([1, 1, 2, 3])))
+    renames = []
+    for o in olds:
+        r = rng.random()
+        if r < 0.85:
+            new = rng.choice([x for x in range(n) if x != o] or [o])
+        elif r < 0.93:
+            new = rng.choice(anc)           # maybe a ghost, maybe o itself
+        else:
+            new = n + daglib.GHOST_BASE + 30   # unknown revision: KeyError
+        renames.append([o, new])
+    if rng.random() < 0.05:
+        renames.append([rng.choice([x for x in range(n) if x not in anc] or [0]), rng.randrange(n)])
+    seen = set()
+    renames = [rn for rn in renames if not (rn[0] in seen or seen.add(rn[0]))]
+    return {"kind": "transpose", "g": g, "anc_order": anc, "renames": renames}
+
+
 def corpus():
     out = [dict(WITNESS), dict(WITNESS, skip=False)]
     import random
@@ -276,10 +307,10 @@ def corpus():
 
 def cases(rng, tier):
     quick = tier == "quick"
-    ndag, maxn, ndirect, ntodo, nmar = (26, 10, 10, 3, 250) if quick else (260, 12, 30, 6, 2500)
+    ndag, maxn, ndirect, ntodo, nmar = (26, 10, 10, 3, 250) if quick else (190, 12, 24, 6, 2000)
     dags = []
     # every (onto, tip, start, skip) choice on small graphs
-    nsmall = 4 if quick else 40
+    nsmall = 4 if quick else 30
     for _ in range(nsmall):
         g = daglib.gen_dag(rng, rng.randint(3, 6), p_merge=0.5)
         dags.append(g)
@@ -308,6 +339,8 @@ def cases(rng, tier):
                 ps = [rng.choice(list(range(n)) + [NEW + x for x in olds]) for _ in range(rng.randint(1, 3))]
                 m.append([o, new, ps])
             yield {"kind": "todo", "g": g, "m": m}
+        for _ in range(ntodo * 2):
+            yield _transpose_case(rng, g)
     for i in range(nmar):
         c = _marshall_case(rng, legal=(i % 3 != 0))
         yield c
@@ -397,6 +430,17 @@ def impl(inp):
         if kind == "todo":
             m = {rid(o): (rid(n), tuple(rid(p) for p in ps)) for o, n, ps in inp["m"]}
             return [idx(x) for x in R.rebase_todo(repo, m)]
+        if kind == "transpose":
+            order = [rid(x) for x in inp["anc_order"]]
+            pm = gr.get_parent_map(order)
+            ancestry = [(r, pm.get(r)) for r in order]          # None for a ghost, like iter_ancestry
+            renames = {rid(o): rid(n) for o, n in inp["renames"]}
+            try:
+                plan = R.generate_transpose_plan(iter(ancestry), renames, gr,
+                                                 lambda revid, ps: rid(NEW + idx(revid)))
+            except (KeyError, ValueError) as e:
+                return Err(type(e).__name__)
+            return {idx(o): [idx(nw), [idx(p) for p in ps if p != b"null:"]] for o, (nw, ps) in plan.items()}
         # kind == "plan"
         onto = rid(inp["onto"])
         start = None if inp["start"] is None else rid(inp["start"])
@@ -474,6 +518,11 @@ def model_term(inp):
     if kind == "todo":
         m = coq_list([f"({o}, ({n}, {_nl(ps)}))" for o, n, ps in inp["m"]])
         return f"run_todo {g} {m}"
+    if kind == "transpose":
+        gg = inp["g"]
+        anc = coq_list([f"({x}, {'Some ' + _nl(gg[x]) if x < len(gg) else 'None'})" for x in inp["anc_order"]])
+        ren = coq_list([f"({o}, {n})" for o, n in inp["renames"]])
+        return f"run_transpose {g} {anc} {ren} None"
     tail = f"{inp['onto']} {coq_bool(inp['skip'])} {_nopt(inp['same'])}"
     if inp["via"] == "cmd":
         return f"run_plan_cmd {g} {_nl(inp['order'])} {_nopt(inp['start'])} {inp['stop']} {tail}"
@@ -557,6 +606,22 @@ def oracle(inp, obs):
         return None if obs[1] == want else "plan file does not round-trip: wrote %r, read back %r" % (want, obs[1])
     if kind == "unmarshall":
         return None
+    if kind == "transpose":
+        if isinstance(obs, Err):
+            return None
+        g = inp["g"]
+        ren = {o: n for o, n in inp["renames"]}
+        anc = set(inp["anc_order"])
+        for old, (new, ps) in obs.items():
+            if old in ren:
+                return "renamed revision %d is rewritten by the transpose plan" % old
+            if not any(daglib.is_ancestor(g, o, old) for o in ren):
+                return "revision %d is rewritten although it descends from no renamed revision" % old
+            for p in ps:
+                ok = p in g[old] or any(ren.get(q) == p or (q in obs and obs[q][0] == p) for q in g[old])
+                if not ok:
+                    return "new parent %d of %d is neither an old parent nor the replacement of one" % (p, old)
+        return None
     # plan
     g = inp["g"]
     pres_todo = _present(g, inp["todo"])
@@ -611,7 +676,7 @@ def nontrivial(inp, obs):
 
 
 def distribution(inputs, observations):
-    d = {"env": 0, "plan": 0, "todo": 0, "marshall": 0, "unmarshall": 0, "cmd": 0, "direct": 0, "skip": 0,
+    d = {"env": 0, "plan": 0, "todo": 0, "marshall": 0, "unmarshall": 0, "transpose": 0, "cmd": 0, "direct": 0, "skip": 0,
          "with_start": 0, "plans_with_merge": 0, "graphs_with_ghosts": 0, "outcome": {}, "plan_len": {}, "graph_size": {}}
     for i, o in zip(inputs, observations):
         d[i["kind"]] += 1
